@@ -142,12 +142,16 @@ theorem index_spec (t : Table) (x : Pid) (i : Nat) (h : t.index? x = some i) :
   rw [this]
 
 /-- well-formedness of a single-vote tally: stored signers are distinct senders with positive power -/
-structure TallyWF (t : Table) (q : Tally) : Prop where
+structure TallyWF (V : Pid → Chain → Prop) (t : Table) (q : Tally) : Prop where
   nodup : ∀ sup ∈ q.support, sup.signers.Nodup
   sub : ∀ sup ∈ q.support, ∀ x ∈ sup.signers, x ∈ q.senders
   pos : ∀ x ∈ q.senders, 0 < t.power x
+  /-- provenance: a stored signature of `x` under chain `c` comes from a delivered vote of `x` for `c` -/
+  voted : ∀ sup ∈ q.support, ∀ x ∈ sup.signers, V x sup.chain
 
-theorem TallyWF_empty (t : Table) : TallyWF t {} := ⟨by simp, by simp, by simp⟩
+
+theorem TallyWF_empty (V : Pid → Chain → Prop) (t : Table) : TallyWF V t {} :=
+  ⟨by simp, by simp, by simp, by simp⟩
 
 theorem upsertSupport_mem (l : List Support) (s s' : Support) (h : s' ∈ upsertSupport l s) : s' = s ∨ s' ∈ l := by
   induction l with
@@ -167,17 +171,24 @@ theorem upsertSupport_mem (l : List Support) (s s' : Support) (h : s' ∈ upsert
 theorem findSupport_mem (q : Tally) (c : Chain) (s : Support) (h : q.findSupport c = some s) : s ∈ q.support :=
   List.mem_of_find?_eq_some h
 
-theorem cand_signers (t : Table) (q : Tally) (c : Chain) (hwf : TallyWF t q) :
+theorem findSupport_chain (q : Tally) (c : Chain) (s : Support) (h : q.findSupport c = some s) : s.chain = c := by
+  have := List.find?_some h
+  simpa using this
+
+theorem cand_signers {V : Pid → Chain → Prop} (t : Table) (q : Tally) (c : Chain) (hwf : TallyWF V t q) :
     ((q.findSupport c).getD { chain := c, power := 0, signers := [], strong := false }).signers.Nodup ∧
-    ∀ x ∈ ((q.findSupport c).getD { chain := c, power := 0, signers := [], strong := false }).signers, x ∈ q.senders := by
+    (∀ x ∈ ((q.findSupport c).getD { chain := c, power := 0, signers := [], strong := false }).signers, x ∈ q.senders) ∧
+    (∀ x ∈ ((q.findSupport c).getD { chain := c, power := 0, signers := [], strong := false }).signers, V x c) := by
   cases hf : q.findSupport c with
   | none => simp
   | some sup =>
     simp only [Option.getD_some]
-    exact ⟨hwf.nodup sup (findSupport_mem q c sup hf), hwf.sub sup (findSupport_mem q c sup hf)⟩
+    refine ⟨hwf.nodup sup (findSupport_mem q c sup hf), hwf.sub sup (findSupport_mem q c sup hf), fun x hx => ?_⟩
+    have := hwf.voted sup (findSupport_mem q c sup hf) x hx
+    rwa [findSupport_chain q c sup hf] at this
 
-theorem receive_wf (t : Table) (q q' : Tally) (sender : Pid) (c : Chain) (hwf : TallyWF t q)
-    (hpos : 0 < t.power sender) (h : q.receive t sender c = some q') : TallyWF t q' := by
+theorem receive_wf {V : Pid → Chain → Prop} (t : Table) (q q' : Tally) (sender : Pid) (c : Chain) (hwf : TallyWF V t q)
+    (hpos : 0 < t.power sender) (hv : V sender c) (h : q.receive t sender c = some q') : TallyWF V t q' := by
   unfold Tally.receive at h
   split at h
   · cases h; exact hwf
@@ -191,9 +202,9 @@ theorem receive_wf (t : Table) (q q' : Tally) (sender : Pid) (c : Chain) (hwf : 
       -- the candidate's signers before the update
       have hc := cand_signers t q c hwf
       have hcand : ∀ x ∈ ((q.findSupport c).getD { chain := c, power := 0, signers := [], strong := false }).signers,
-          x ∈ q.senders ∧ True := fun x hx => ⟨hc.2 x hx, trivial⟩
+          x ∈ q.senders ∧ True := fun x hx => ⟨hc.2.1 x hx, trivial⟩
       have hcandnd := hc.1
-      refine ⟨?_, ?_, ?_⟩
+      refine ⟨?_, ?_, ?_, ?_⟩
       · intro sup hsup
         rcases upsertSupport_mem _ _ _ hsup with rfl | hsup
         · simp only [if_true]
@@ -216,18 +227,29 @@ theorem receive_wf (t : Table) (q q' : Tally) (sender : Pid) (c : Chain) (hwf : 
         rcases hx with hx | rfl
         · exact hwf.pos x hx
         · exact hpos
+      · intro sup hsup x hx
+        rcases upsertSupport_mem _ _ _ hsup with rfl | hsup
+        · simp only [if_true, List.mem_append, List.mem_singleton] at hx
+          rcases hx with hx | rfl
+          · exact hc.2.2 x hx
+          · exact hv
+        · exact hwf.voted sup hsup x hx
 
 /-- what C03 asks of a reported decision's justification -/
-structure DecisionOK (t : Table) (d : Just) : Prop where
+structure DecisionOK (V : Pid → Chain → Prop) (t : Table) (d : Just) : Prop where
   round : d.round = 0
   phase : d.phase = .decide
   increasing : d.signers.Pairwise (· < ·)
   members : ∀ i ∈ d.signers, i < t.entries.length ∧ 0 < t.powerAt i
   strong : strongQ t (sumPow t d.signers) = true
+  /-- every listed signer is a committee member from whom a DECIDE vote for exactly the decided value
+  was delivered: the aggregate is over exactly the decided value -/
+  signed : ∀ i ∈ d.signers, ∃ x, t.index? x = some i ∧ V x d.value
 
-theorem findStrongQuorumFor_spec (t : Table) (q : Tally) (c : Chain) (sg : List Nat) (hwf : TallyWF t q)
+theorem findStrongQuorumFor_spec {V : Pid → Chain → Prop} (t : Table) (q : Tally) (c : Chain) (sg : List Nat) (hwf : TallyWF V t q)
     (h : q.findStrongQuorumFor t c = .found sg) :
-    sg.Pairwise (· < ·) ∧ (∀ i ∈ sg, i < t.entries.length ∧ 0 < t.powerAt i) ∧ strongQ t (sumPow t sg) = true := by
+    sg.Pairwise (· < ·) ∧ (∀ i ∈ sg, i < t.entries.length ∧ 0 < t.powerAt i) ∧ strongQ t (sumPow t sg) = true ∧
+    (∀ i ∈ sg, ∃ x, t.index? x = some i ∧ V x c) := by
   unfold Tally.findStrongQuorumFor at h
   split at h
   · cases h
@@ -262,7 +284,7 @@ theorem findStrongQuorumFor_spec (t : Table) (q : Tally) (c : Chain) (sg : List 
             unfold List.Nodup at hsn
             rw [List.pairwise_iff_getElem] at hsn
             exact hsn a b (by omega) (by omega) hab (by rw [← e1, ← e2])
-          refine ⟨?_, ?_, ?_⟩
+          refine ⟨?_, ?_, ?_, ?_⟩
           · rw [hsg]
             exact pairwise_take _ k (sorted_nodup_lt _ (sortNat_sorted idxs) (sortNat_nodup idxs hnd))
           · intro i hi
@@ -272,42 +294,51 @@ theorem findStrongQuorumFor_spec (t : Table) (q : Tally) (c : Chain) (sg : List 
             obtain ⟨hlt, _, hpw⟩ := index_spec t x i hix
             exact ⟨hlt, by rw [hpw]; exact hwf.pos x (hwf.sub sup hsupm x hx)⟩
           · rw [hsg]; simpa using hst
+          · intro i hi
+            rw [hsg] at hi
+            have hi' : i ∈ idxs := (sortNat_mem idxs i).1 (List.mem_of_mem_take hi)
+            obtain ⟨x, hx, hix⟩ := hidx_of i hi'
+            refine ⟨x, hix, ?_⟩
+            have := hwf.voted sup hsupm x hx
+            rwa [findSupport_chain q c sup hsup] at this
         · cases h
 
 
 /-- the decision-side invariant: the DECIDE tally is well formed and a stored termination value is a
 well-formed decision -/
-def DecInv (s : State) : Prop :=
-  TallyWF s.tbl s.decision ∧ ∀ d, s.termination = some d → DecisionOK s.tbl d
+def DecInv (V : Pid → Chain → Prop) (s : State) : Prop :=
+  TallyWF V s.tbl s.decision ∧ ∀ d, s.termination = some d → DecisionOK V s.tbl d
 
-theorem DecInv_frame {s s' : State} (h : FrameD s s') (hi : DecInv s) : DecInv s' := by
+variable {V : Pid → Chain → Prop}
+
+theorem DecInv_frame {s s' : State} (h : FrameD s s') (hi : DecInv V s) : DecInv V s' := by
   unfold DecInv
   rw [h.tbl, h.decision, h.termination]; exact hi
 
 theorem DecInv_of_eq {s s' : State} (ht : s'.tbl = s.tbl) (hd : s'.decision = s.decision)
-    (hte : s'.termination = s.termination) (hi : DecInv s) : DecInv s' := by
+    (hte : s'.termination = s.termination) (hi : DecInv V s) : DecInv V s' := by
   unfold DecInv
   rw [ht, hd, hte]; exact hi
 
-theorem tryDecide_decinv (s : State) (now : Int) (hi : DecInv s) : DecInv (s.tryDecide now).1 := by
+theorem tryDecide_decinv (s : State) (now : Int) (hi : DecInv V s) : DecInv V (s.tryDecide now).1 := by
   unfold State.tryDecide
   split
   · exact hi
   · rename_i v hv
     split
     · rename_i sg hsg
-      obtain ⟨h1, h2, h3⟩ := findStrongQuorumFor_spec s.tbl s.decision v sg hi.1 hsg
+      obtain ⟨h1, h2, h3, h4⟩ := findStrongQuorumFor_spec s.tbl s.decision v sg hi.1 hsg
       unfold State.terminate State.resetReb
       refine ⟨hi.1, ?_⟩
       intro d hd
       simp at hd
       subst hd
-      exact ⟨rfl, rfl, h1, h2, h3⟩
+      exact ⟨rfl, rfl, h1, h2, h3, h4⟩
     · exact hi
     · exact hi
   · exact DecInv_frame (tryRebroadcast_frame s now) hi
 
-theorem tryCurrentPhase_decinv (s : State) (now : Int) (hi : DecInv s) : DecInv (s.tryCurrentPhase now).1 := by
+theorem tryCurrentPhase_decinv (s : State) (now : Int) (hi : DecInv V s) : DecInv V (s.tryCurrentPhase now).1 := by
   unfold State.tryCurrentPhase
   split
   · exact DecInv_frame (tryQuality_frame s now) hi
@@ -318,31 +349,31 @@ theorem tryCurrentPhase_decinv (s : State) (now : Int) (hi : DecInv s) : DecInv 
   · exact hi
   · exact hi
 
-theorem andThen_decinv {r : R} {f : State → R} (h1 : DecInv r.1) (h2 : ∀ st, DecInv st → DecInv (f st).1) :
-    DecInv (andThen r f).1 := by
+theorem andThen_decinv {r : R} {f : State → R} (h1 : DecInv V r.1) (h2 : ∀ st, DecInv V st → DecInv V (f st).1) :
+    DecInv V (andThen r f).1 := by
   unfold andThen; split
   · exact h1
   · exact h2 _ h1
 
-theorem recvQuality_decinv (s : State) (now : Int) (m : Msg) (hi : DecInv s) : DecInv (s.recvQuality now m).1 := by
+theorem recvQuality_decinv (s : State) (now : Int) (m : Msg) (hi : DecInv V s) : DecInv V (s.recvQuality now m).1 := by
   unfold State.recvQuality State.updateCandidatesFromQuality
   dsimp only
   split
   · exact DecInv_frame (addCandidatePrefixes_frame _ _) (DecInv_of_eq rfl rfl rfl hi)
   · exact tryCurrentPhase_decinv _ now (DecInv_of_eq rfl rfl rfl hi)
 
-theorem recvConverge_decinv (s : State) (now : Int) (m : Msg) (j) (hi : DecInv s) : DecInv (s.recvConverge now m j).1 := by
+theorem recvConverge_decinv (s : State) (now : Int) (m : Msg) (j) (hi : DecInv V s) : DecInv V (s.recvConverge now m j).1 := by
   unfold State.recvConverge
   exact tryCurrentPhase_decinv _ now (DecInv_of_eq rfl rfl rfl hi)
 
-theorem recvPrepare_decinv (s : State) (now : Int) (m : Msg) (hi : DecInv s) : DecInv (s.recvPrepare now m).1 := by
+theorem recvPrepare_decinv (s : State) (now : Int) (m : Msg) (hi : DecInv V s) : DecInv V (s.recvPrepare now m).1 := by
   unfold State.recvPrepare
   dsimp only
   split
   · exact hi
   · exact tryCurrentPhase_decinv _ now (DecInv_of_eq rfl rfl rfl hi)
 
-theorem recvCommit_decinv (s : State) (now : Int) (m : Msg) (hi : DecInv s) : DecInv (s.recvCommit now m).1 := by
+theorem recvCommit_decinv (s : State) (now : Int) (m : Msg) (hi : DecInv V s) : DecInv V (s.recvCommit now m).1 := by
   unfold State.recvCommit
   dsimp only
   split
@@ -356,24 +387,25 @@ theorem recvCommit_decinv (s : State) (now : Int) (m : Msg) (hi : DecInv s) : De
         · exact DecInv_frame (tryCommit_frame _ now _) (DecInv_of_eq rfl rfl rfl hi)
       · exact tryCurrentPhase_decinv _ now (DecInv_of_eq rfl rfl rfl hi)
 
-theorem recvDecide_decinv (s : State) (now : Int) (m : Msg) (hi : DecInv s) (hpos : 0 < s.tbl.power m.sender) :
-    DecInv (s.recvDecide now m).1 := by
+theorem recvDecide_decinv (s : State) (now : Int) (m : Msg) (hi : DecInv V s) (hpos : 0 < s.tbl.power m.sender)
+    (hv : V m.sender m.value) :
+    DecInv V (s.recvDecide now m).1 := by
   unfold State.recvDecide
   dsimp only
   split
   · exact hi
   · rename_i q hq
-    have hi1 : DecInv ({ s with decision := q } : State) := ⟨receive_wf s.tbl s.decision q _ _ hi.1 hpos hq, hi.2⟩
+    have hi1 : DecInv V ({ s with decision := q } : State) := ⟨receive_wf s.tbl s.decision q _ _ hi.1 hpos hv hq, hi.2⟩
     split
     · exact andThen_decinv (DecInv_frame (skipToDecide_frame _ _ _) hi1) (fun st h => tryCurrentPhase_decinv st now h)
     · exact tryCurrentPhase_decinv _ now hi1
 
 /-- a delivered message is a validated one: its sender has positive scaled power, and DECIDE is for round 0 -/
-def OpValid (t : Table) : Op → Prop
-  | .recv _ m => MsgOk m ∧ 0 < t.power m.sender
+def OpValid (V : Pid → Chain → Prop) (t : Table) : Op → Prop
+  | .recv _ m => MsgOk m ∧ 0 < t.power m.sender ∧ (m.phase = .decide → V m.sender m.value)
   | _ => True
 
-theorem step_decinv (s : State) (op : Op) (hi : DecInv s) (hop : OpValid s.tbl op) : DecInv (step s op).1 := by
+theorem step_decinv (s : State) (op : Op) (hi : DecInv V s) (hop : OpValid V s.tbl op) : DecInv V (step s op).1 := by
   cases op with
   | start now => exact DecInv_frame (beginQuality_frame s now) hi
   | alarm now => exact tryCurrentPhase_decinv s now hi
@@ -382,7 +414,7 @@ theorem step_decinv (s : State) (op : Op) (hi : DecInv s) (hop : OpValid s.tbl o
     dsimp only
     split
     · exact hi
-    · have h1 : DecInv (s.receiveOne now m).1.1 := by
+    · have h1 : DecInv V (s.receiveOne now m).1.1 := by
         unfold State.receiveOne
         split
         · exact hi
@@ -396,7 +428,7 @@ theorem step_decinv (s : State) (op : Op) (hi : DecInv s) (hop : OpValid s.tbl o
               · exact recvConverge_decinv s now m _ hi
           · exact recvPrepare_decinv s now m hi
           · exact recvCommit_decinv s now m hi
-          · exact recvDecide_decinv s now m hi hop.2
+          · rename_i hph; exact recvDecide_decinv s now m hi hop.2.1 (hop.2.2 hph)
           · exact hi
       generalize s.receiveOne now m = ro at *
       obtain ⟨r, changed⟩ := ro
@@ -490,8 +522,8 @@ theorem runFrom_tbl (s : State) (ops : List Op) : (runFrom s ops).1.tbl = s.tbl 
   | nil => rfl
   | cons op ops ih => rw [runFrom_cons]; simp only; rw [ih, step_tbl]
 
-theorem runFrom_decinv (s : State) (ops : List Op) (hi : DecInv s) (hops : ∀ op ∈ ops, OpValid s.tbl op) :
-    DecInv (runFrom s ops).1 := by
+theorem runFrom_decinv (s : State) (ops : List Op) (hi : DecInv V s) (hops : ∀ op ∈ ops, OpValid V s.tbl op) :
+    DecInv V (runFrom s ops).1 := by
   induction ops generalizing s with
   | nil => exact hi
   | cons op ops ih =>
@@ -502,7 +534,7 @@ theorem runFrom_decinv (s : State) (ops : List Op) (hi : DecInv s) (hops : ∀ o
     rw [step_tbl]
     exact hops o (by simp [ho])
 
-theorem DecInv_init (cfg : Cfg) (tbl : Table) (input : Chain) : DecInv (init cfg tbl input) :=
-  ⟨TallyWF_empty tbl, fun d hd => by simp [init] at hd⟩
+theorem DecInv_init (cfg : Cfg) (tbl : Table) (input : Chain) : DecInv V (init cfg tbl input) :=
+  ⟨TallyWF_empty V tbl, fun d hd => by simp [init] at hd⟩
 
 end F3.Instance
